@@ -36,7 +36,7 @@ const (
 
 // Op is one operation of a history (JSON = the replay format).
 type Op struct {
-	K   string   `json:"k"`             // fund bond add redel edit withdraw unbond gov params confirm addbatch delbatch block
+	K   string   `json:"k"`             // fund bond add redel edit withdraw unbond gov params confirm addbatch delbatch addcall delcall block
 	M   int      `json:"m"`             // module index (ignored by block)
 	A   int      `json:"a,omitempty"`   // oracle account id
 	B   int      `json:"b,omitempty"`   // bridger account id
@@ -45,7 +45,7 @@ type Op struct {
 	Amt string   `json:"amt,omitempty"` // amount in base units
 	L   []int    `json:"l,omitempty"`   // governance list (oracle ids)
 	P   []string `json:"p,omitempty"`   // threshold, multiple, slash fraction (scaled 1e18), signed window
-	Obj string   `json:"obj,omitempty"` // confirm: set | batch
+	Obj string   `json:"obj,omitempty"` // confirm: set | batch | call
 	N   int64    `json:"n,omitempty"`   // confirm / batch: nonce or batch id
 	Sig int      `json:"sig,omitempty"` // confirm: 0 = signed with the key of E, 1 = signed with another key
 	Dt  int64    `json:"dt,omitempty"`  // block: seconds the block time advances
@@ -88,6 +88,8 @@ type View struct {
 	SlashedSet  int64
 	Batches     []objView
 	SlashedBat  int64
+	Calls       []objView
+	SlashedCall int64
 	Height      int64
 	Threshold   *big.Int
 	Multiple    int64
@@ -97,20 +99,21 @@ type View struct {
 }
 
 type modw struct {
-	w       *world
-	idx     int
-	name    string
-	x       *lib.XChain
-	accKey  map[int]lib.Key
-	extKey  map[int]*ecdsa.PrivateKey
-	accID   map[string]int // bech32 -> id
-	extID   map[string]int // external address string -> id
-	token   string
-	steps   []string // Coq step terms
-	view0   string
-	initArg string
-	nsteps  int
-	nextBat int64
+	w        *world
+	idx      int
+	name     string
+	x        *lib.XChain
+	accKey   map[int]lib.Key
+	extKey   map[int]*ecdsa.PrivateKey
+	accID    map[string]int // bech32 -> id
+	extID    map[string]int // external address string -> id
+	token    string
+	steps    []string // Coq step terms
+	view0    string
+	initArg  string
+	nsteps   int
+	nextBat  int64
+	nextCall int64
 }
 
 type world struct {
@@ -137,7 +140,7 @@ func newWorld(seed int64, modules []string) *world {
 	w.ubtime = int64(sp.UnbondingTime / time.Second)
 	for i, name := range modules {
 		m := &modw{w: w, idx: i, name: name, x: c.X(name), accKey: map[int]lib.Key{}, extKey: map[int]*ecdsa.PrivateKey{},
-			accID: map[string]int{}, extID: map[string]int{}, nextBat: 1}
+			accID: map[string]int{}, extID: map[string]int{}, nextBat: 1, nextCall: 1}
 		for a := 0; a < nOracles; a++ {
 			m.accKey[a] = lib.EthKey(seed, "c13/oracle/"+name, a)
 		}
@@ -352,6 +355,20 @@ func (w *world) apply(op Op) []applied {
 				ExternalAddress: m.extAddr(op.E), Signature: sig, ChainName: m.name}
 			try(msg.ValidateBasic, func(ctx sdk.Context) error { _, e := x.Msg().OracleSetConfirm(ctx, msg); return e })
 			coqOp = fmt.Sprintf("Confirm KSet %d %d %d %s", op.N, op.B, op.E, lib.Bool(op.Sig == 0))
+		} else if op.Obj == "call" {
+			sig := "00"
+			if oc, found := x.Keeper.GetOutgoingBridgeCallByNonce(c.Ctx, uint64(op.N)); found {
+				sig = hex.EncodeToString(m.sign(signer, func() ([]byte, error) {
+					if m.name == trontypes.ModuleName {
+						return trontypes.GetCheckpointBridgeCall(oc, gravityID)
+					}
+					return oc.GetCheckpoint(gravityID)
+				}))
+			}
+			msg := &crosschaintypes.MsgBridgeCallConfirm{Nonce: uint64(op.N), BridgerAddress: m.acc(op.B).String(),
+				ExternalAddress: m.extAddr(op.E), Signature: sig, ChainName: m.name}
+			try(msg.ValidateBasic, func(ctx sdk.Context) error { _, e := x.Msg().BridgeCallConfirm(ctx, msg); return e })
+			coqOp = fmt.Sprintf("Confirm KCall %d %d %d %s", op.N, op.B, op.E, lib.Bool(op.Sig == 0))
 		} else {
 			sig := "00"
 			if b := x.Keeper.GetOutgoingTxBatch(c.Ctx, m.token, uint64(op.N)); b != nil {
@@ -392,6 +409,17 @@ func (w *world) apply(op Op) []applied {
 			return nil
 		})
 		coqOp = fmt.Sprintf("DelBatch %d", op.N)
+	case "addcall":
+		// like batches: the object is stored with the keeper's own setter (its construction is C05/C06 matter)
+		dest := crosschaintypes.ExternalAddrToStr(m.name, crypto.PubkeyToAddress(m.extKey[200].PublicKey).Bytes())
+		oc := &crosschaintypes.OutgoingBridgeCall{Sender: dest, Refund: dest, To: dest, Nonce: uint64(m.nextCall), Timeout: 1 << 40,
+			BlockHeight: uint64(c.Ctx.BlockHeight())}
+		m.nextCall++
+		try(nil, func(ctx sdk.Context) error { x.Keeper.AddOutgoingBridgeCallWithoutBuild(ctx, oc); return nil })
+		coqOp = "AddCall"
+	case "delcall":
+		try(nil, func(ctx sdk.Context) error { x.Keeper.DeleteOutgoingBridgeCallRecord(ctx, uint64(op.N)); return nil })
+		coqOp = fmt.Sprintf("DelCall %d", op.N)
 	default:
 		panic("unknown op " + op.K)
 	}
@@ -518,6 +546,18 @@ func (m *modw) view() *View {
 		return false
 	})
 	v.SlashedBat = int64(x.Keeper.GetLastSlashedBatchBlock(ctx))
+	x.Keeper.IterateOutgoingBridgeCalls(ctx, func(oc *crosschaintypes.OutgoingBridgeCall) bool {
+		ov := objView{N: int64(oc.Nonce), H: int64(oc.BlockHeight)}
+		x.Keeper.IterBridgeCallConfirmByNonce(ctx, oc.Nonce, func(cf *crosschaintypes.MsgBridgeCallConfirm) bool {
+			ov.Conf = append(ov.Conf, m.extID[cf.ExternalAddress])
+			return false
+		})
+		sort.Ints(ov.Conf)
+		v.Calls = append(v.Calls, ov)
+		return false
+	})
+	sort.Slice(v.Calls, func(i, j int) bool { return v.Calls[i].N < v.Calls[j].N })
+	v.SlashedCall = int64(x.Keeper.GetLastSlashedBridgeCallNonce(ctx))
 	return v
 }
 
@@ -582,8 +622,9 @@ func (v *View) coq() string {
 	for _, b := range v.BalD {
 		bd = append(bd, b.String())
 	}
-	return fmt.Sprintf("(mkView %s %s %s %s %s %s %s %s %s %s %d %s %d)", lib.List(recs), coqPairs(v.ByB), coqPairs(v.ByE), coqInts(v.Prop),
-		v.Power, coqDeleg(v.Deleg), coqUbds(v.Ubds), lib.List(bo), lib.List(bd), coqObjs(v.Sets), v.SlashedSet, coqObjs(v.Batches), v.SlashedBat)
+	return fmt.Sprintf("(mkView %s %s %s %s %s %s %s %s %s %s %d %s %d %s %d)", lib.List(recs), coqPairs(v.ByB), coqPairs(v.ByE), coqInts(v.Prop),
+		v.Power, coqDeleg(v.Deleg), coqUbds(v.Ubds), lib.List(bo), lib.List(bd), coqObjs(v.Sets), v.SlashedSet, coqObjs(v.Batches), v.SlashedBat,
+		coqObjs(v.Calls), v.SlashedCall)
 }
 
 // deltas: Coq list of vdelta turning the previous observed view into this one
@@ -651,6 +692,10 @@ func (v *View) deltas(p *View) string {
 	objDelta(v.Batches, p.Batches, "DBatch", "DBatches")
 	if v.SlashedBat != p.SlashedBat {
 		ds = append(ds, fmt.Sprintf("DSlashedBat %d", v.SlashedBat))
+	}
+	objDelta(v.Calls, p.Calls, "DCall", "DCalls")
+	if v.SlashedCall != p.SlashedCall {
+		ds = append(ds, fmt.Sprintf("DSlashedCall %d", v.SlashedCall))
 	}
 	return lib.List(ds)
 }
